@@ -46,7 +46,9 @@ ASSUMPTIONS = [
     'the property; a small malformed stream is run and only reported in the evidence)',
     'errors are compared as ok/err only (not the exception class or message)',
     'not generated: sort/argsort on arrays containing records (erratic in the eager code itself), argsort at an axis other '
-    'than -1 (returns uninitialised memory on sliced input: a C06 finding), operations on the result of the internal carry',
+    'than -1 or over missing values (undefined numbers: a C06 finding), operations on the result of the internal carry, '
+    'ellipsis/newaxis over records (RecordArray::getitem_next and IndexedArray<RecordArray> disagree in the eager code)',
+    'a std::runtime_error of the eager operation (the library reporting its own inconsistency) ends the comparison of that step',
 ]
 TRUSTED_BASE = [
     'Rocq kernel: coqc 8.16.1 (vm_compute used in examples and in repartition_refuted; native_compute not used)',
@@ -65,6 +67,7 @@ EMPTY_SIG = 'partition-empty-range-wrong-type'
 LONG_SIG = 'virtual-declared-length-longer-accepted'
 BITMASK_SIG = 'virtual-lazy-slice-bitmasked-form-mismatch'
 STRSORT_SIG = 'virtual-lazy-carry-hides-array-parameter'
+UNION_SIG = 'virtual-content-hidden-from-simplify'      # simplify_uniontype / simplify_optiontype do not look through a VirtualArray
 
 
 # ------------------------------------------------------------------------------------------------ build
@@ -125,8 +128,12 @@ def rec_fields(t):
 
 def gen_slice(rng, t, n):
     items = []
+    has_rec = G.has_kind(t, 'rec')
     for _ in range(rng.choice([1, 1, 1, 2, 2, 3])):
         r = rng.random()
+        if has_rec and 0.6 <= r < 0.74:
+            r = 0.3      # no ellipsis / newaxis over records: RecordArray and IndexedArray-of-RecordArray place the
+            #              new axis differently in the eager code itself (a C01 matter)
         if r < 0.25:
             items.append(['at', rng.randint(-n - 1, n)])
         elif r < 0.6:
@@ -156,6 +163,8 @@ def gen_op(rng, t, n, generic=False):
     c = rng.choice(names)
     if c in ('sort', 'argsort') and G.has_kind(t, 'rec'):
         c = 'reduce'            # sort over records is not a defined operation in this tree (erratic eager results)
+    if c == 'argsort' and (generic or G.has_kind(t, 'opt')):
+        c = 'sort'              # argsort writes undefined numbers at missing values (they differ from run to run)
     if generic and c in ('carry', 'lazycarry'):
         c = 'materialize'       # carry is an internal operation whose indices must be in range of an unknown length
     if c in ('field', 'fields'):
@@ -184,7 +193,10 @@ def gen_op(rng, t, n, generic=False):
             ix = [rng.randint(0, max(n - 1, 0)) for _ in range(k)] if n > 0 else []
         return [c, ix]
     if c == 'reduce':
-        return ['reduce', rng.choice(REDUCERS), rng.choice([-1, -1, ax()]), rng.choice([0, 1]), rng.choice([0, 0, 1])]
+        red = rng.choice(REDUCERS)
+        # argmin/argmax across lists (axis other than -1) leave undefined numbers where a list is empty (a C03 matter)
+        axis = -1 if red in ('argmin', 'argmax') else rng.choice([-1, -1, ax()])
+        return ['reduce', red, axis, rng.choice([0, 1]), rng.choice([0, 0, 1])]
     if c == 'argsort':
         # only the local branch: the non-local one returns uninitialised memory on sliced input (a C06 finding),
         # which differs from run to run and so between the two arrays
@@ -461,6 +473,18 @@ def run_virtrun(lines):
     return out
 
 
+def under_union(session, wraps):
+    """is some wrapped node a direct content of a UnionArray?"""
+    lay = fld(session, 'layout')[1]
+    for w in wraps:
+        node = lay
+        for p in w['path'][:-1]:
+            node = node[p]
+        if w['path'] and node[0] == 'un':
+            return True
+    return False
+
+
 def model_outcomes(w, lenient):
     """model-level generator outcomes for one wrap: o conforming / b wrong shape / f exception"""
     out = []
@@ -618,8 +642,22 @@ def first_crashing_prefix(c, san):
             rc, hung = None, True
             err = e.stderr.decode() if isinstance(e.stderr, bytes) else (e.stderr or '')
         if hung or rc != 0:
-            marks = re.findall(r'^@([EVPQ]) (\d+)$', err, re.M)
+            marks = re.findall(r'^@([EVPQ]) (-?\d+)$', err, re.M)
             phase = marks[-1][0] if marks else '?'
+            if not san and phase != 'E':
+                # undefined behaviour in the eager phase may only show later: ask the sanitizer build, if it is current
+                sexe = os.path.join(C.SAN, DRV)
+                src = os.path.join(C.VERIF, 'impl', 'drv', 'virtdrv.cpp')
+                if os.path.exists(sexe) and os.path.getmtime(sexe) >= os.path.getmtime(src):
+                    try:
+                        ps = subprocess.run([sexe], input=ln + '\n', stdout=subprocess.PIPE, stderr=subprocess.PIPE,
+                                            text=True, timeout=60, env=env)
+                        if ps.returncode != 0 and 'loading shared libraries' not in ps.stderr:
+                            smarks = re.findall(r'^@([EVPQ]) (-?\d+)$', ps.stderr, re.M)
+                            if smarks and smarks[-1][0] == 'E':
+                                phase = 'E'
+                    except subprocess.TimeoutExpired:
+                        pass
             tail = '\n'.join(l for l in err.splitlines() if not l.startswith('@'))[:1500]
             # try the crashing step alone
             ops[1:] = [steps[k - 1]]
@@ -858,6 +896,9 @@ def run(cases, tier, rng):
                         c, [line, '# driver: ' + r[:1500]], obl='corr:virtual==eager')
                     break
                 if lying or mstat == 'err' or not e_ok:
+                    if not e_ok and e[2] == 'runtime':
+                        bump('eager-internal-error')     # std::runtime_error = the library reports its own inconsistency
+                        continue
                     if not e_ok and v_ok and mstat != 'err' and not lying:
                         if v[2] == 'lazy':
                             bump('deferred-error')       # a lazy result: the error belongs to its materialisation
@@ -872,7 +913,11 @@ def run(cases, tier, rng):
                         break
                     continue
                 if not v_ok:
-                    sig = BITMASK_SIG if ('(bim ' in line and v[2] == 'value') else None
+                    sig = None
+                    if v[2] == 'value' and under_union(parse(line), m['wraps']):
+                        sig = UNION_SIG
+                    elif v[2] == 'value' and '(bim ' in line:
+                        sig = BITMASK_SIG
                     bump('viol')
                     add('viol', 'step %d %s: the eager array answers, the virtual array raises (%s) although every generation succeeded' %
                         (k, unparse(st_in), v[2]), c, [line, '# driver: ' + r[:1500], '# model: ' + mr[:800]], sig,
@@ -884,6 +929,15 @@ def run(cases, tier, rng):
 
                 veq = fld(so, 'veq')
                 info['value_walks'] += 1
+                if 'type' in st_in and not isinstance(v[2], str):
+                    tv = ''.join(chr(int(x)) for x in v[2])
+                    te = ''.join(chr(int(x)) for x in e[2])
+                    if tv != te:
+                        bump('viol')
+                        add('viol', 'step %d %s: type of the virtual array "%s", of the eager array "%s"' % (k, unparse(st_in), tv, te),
+                            c, [line, '# driver: ' + r[:1500]], UNION_SIG if '??' in tv else None, obl='corr:virtual==eager')
+                        break
+                    continue
                 if veq is not None and veq[1] == '1':
                     continue
                 if veq is not None and 'walk-failed' in unparse(veq):
